@@ -43,17 +43,27 @@ class Cx:
     def __init__(self, rnd):
         self.c = store.Concretiser(rnd, scales=(1, 10, 1000, 1000, 43200000, 86400000))      # the last two: 12 h and 24 h per tick (pieces of whole days)
 
-    def mk(self, lst, Event, id0, uniq=None):
-        """(t, u, label) -> Event with id and data; uniq: make the data label unique per event"""
+    def mk(self, lst, Event, id0, uniq=None, dupids=False, twins=False):
+        """(t, u, label) -> Event with id and data; uniq: make the data label unique per event; dupids: ids repeat (events of
+        several buckets in one list); twins: the two labels become data that differ only in a tuple versus a list"""
         out = []
         for k, (t, u, x) in enumerate(lst):
             lab = x if uniq is None else "%s%d" % (uniq, k + 1)
-            out.append(Event(id=id0 + k, timestamp=self.c.dt(t), duration=self.c.td(u), data={"l": lab, "n": [1, {"z": None}]}))
+            data = {"l": lab, "n": [1, {"z": None}]}
+            if twins and uniq is None and lab in ("x", "y"):
+                data = {"l": "twin", "n": [1, 2] if lab == "x" else (1, 2)}
+            out.append(Event(id=id0 + (k // 2 if dupids else k), timestamp=self.c.dt(t), duration=self.c.td(u), data=data))
         return out
 
     def proj(self, evs):
         return [{"id": e.id if isinstance(e.id, int) else -2, "ts": self.c.tick(e.timestamp), "dur": self.c.dur(e.duration),
-                 "d": str(e.data["l"]) if "l" in e.data else ("empty" if e.data == {} else "UNKNOWN")} for e in evs]
+                 "d": self.lab(e.data)} for e in evs]
+
+    @staticmethod
+    def lab(data):
+        if data.get("l") == "twin":
+            return "x" if isinstance(data.get("n"), list) else "y"
+        return str(data["l"]) if "l" in data else ("empty" if data == {} else "UNKNOWN")
 
     def sec(self, p):
         return p * self.c.scale / 1000.0
@@ -89,7 +99,7 @@ def run_cases(args):
     def one_case(c):
         op = c[0]
         if op == "intersect":
-            a, b = cx.mk(c[1], Event, 1), cx.mk(c[2], Event, 101)
+            a, b = cx.mk(c[1], Event, 0), cx.mk(c[2], Event, 101)
             if c[3]:
                 rnd.shuffle(a)
                 rnd.shuffle(b)
@@ -98,13 +108,15 @@ def run_cases(args):
             out = filter_period_intersect(a, b)
             tr.append({"op": op, "A": pa, "B": pb, "out": cx.proj(out), "A2": cx.proj(a), "B2": cx.proj(b)})
         elif op == "union":
-            a, b = cx.mk(c[1], Event, 1), cx.mk(c[2], Event, 101)
+            a, b = cx.mk(c[1], Event, 0), cx.mk(c[2], Event, 101)
             warm(lambda: period_union(a, b), a, b)
             pa, pb = cx.proj(a), cx.proj(b)
             out = period_union(a, b)
             tr.append({"op": op, "A": pa, "B": pb, "out": cx.proj(out)})
+            for e in out:                  # the caller owns the result: annotating it must not show in any later result
+                e.data["$tags"] = ["annotated-by-the-caller"]
         elif op == "flood":
-            a = cx.mk(c[1], Event, 1)
+            a = cx.mk(c[1], Event, 0, dupids=rnd.random() < 0.3, twins=rnd.random() < 0.3)
             if c[3]:
                 rnd.shuffle(a)
             warm(lambda: flood(a, cx.sec(c[2])), a)
@@ -112,7 +124,7 @@ def run_cases(args):
             out = flood(a, cx.sec(c[2]))
             tr.append({"op": op, "A": pa, "P": c[2], "out": cx.proj(out), "A2": cx.proj(a)})
         elif op == "uno":
-            a, b = cx.mk(c[1], Event, 1, "a"), cx.mk(c[2], Event, 101, "b")
+            a, b = cx.mk(c[1], Event, 0, "a"), cx.mk(c[2], Event, 101, "b")
             warm(lambda: union_no_overlap(a, b), a, b)
             pa, pb = cx.proj(a), cx.proj(b)
             out = union_no_overlap(a, b)
